@@ -97,3 +97,39 @@ pub fn c24_cleanup_forget_does_not_free() {
         }
     }
 }
+
+// ---- allocation failure: a non-zero-sized scratch allocation that the allocator cannot satisfy must abort, never come
+// back as a null pointer (the bindings write through it unconditionally)
+pub static mut ABORTS: u32 = 0;
+pub unsafe fn alloc_fails(layout: Layout) -> *mut u8 {
+    unsafe {
+        ALLOCS += 1;
+    }
+    core::ptr::null_mut()
+}
+pub fn abort_rec(_layout: Layout) -> ! {
+    unsafe { ABORTS += 1 };
+    // the process is gone: nothing after this point runs
+    #[cfg(kani)]
+    kani::assume(false);
+    loop {}
+}
+#[cfg_attr(kani, kani::proof)]
+#[cfg_attr(kani, kani::unwind(8))]
+#[cfg_attr(kani, kani::stub(alloc::alloc::alloc, crate::rt::async_support::verif::c24::alloc_fails))]
+#[cfg_attr(kani, kani::stub(alloc::alloc::dealloc, crate::rt::async_support::verif::c24::dealloc_rec))]
+#[cfg_attr(kani, kani::stub(alloc::alloc::handle_alloc_error, crate::rt::async_support::verif::c24::abort_rec))]
+pub fn c24_cleanup_failed_allocation_never_returns_null() {
+    #[cfg(kani)]
+    {
+        reset();
+        unsafe { ABORTS = 0 };
+        let layout = any_layout();
+        kani::assume(layout.size() != 0);
+        kani::cover!(layout.size() == 6, "the failing allocation is attempted");
+        let (ptr, cleanup) = Cleanup::new(layout);
+        // reaching this point means Cleanup::new RETURNED although the allocator gave it nothing
+        vassert!(false, "C24: a failed scratch allocation of non-zero size must abort, not return (null exactly when the size is zero)");
+        core::mem::forget(cleanup);
+    }
+}
